@@ -42,3 +42,89 @@ Lemma wait_link_all :
   (forall pid (w x : wrec), w_pid x = pid ->
      wait_find_left pid (w_pid w) = Some true <-> wait_interest_compare (w_pid x) (w_pid w) = Some (-1)).
 Proof. exact (conj leaf_wait_compare (conj leaf_wait_compare_eq (conj leaf_wait_find_hit leaf_wait_find_left))). Qed.
+
+(* ---- round 9 ----
+   is_dead of the model IS iv_wait_status_dead of the source (WIFEXITED || WIFSIGNALED: every status except the stopped
+   ones 0x..7f and the continued one 0xffff), Gen/Leaf.v re-translated on every run; the reaper asks wait4 for ANY child
+   (-1) without blocking and including stopped and continued children (WNOHANG | WUNTRACED | WCONTINUED = 1 | 2 | 8), leaves
+   its loop when nothing is left (pid <= 0), routes a status iff an interest was found, and the kill helper / unregister
+   look at the DEAD flag exactly as the model's WKill guard / tree membership do. *)
+From Ivv Require Gen.Leaf.
+Import ListNotations.
+
+Fixpoint upto (n : nat) : list Z := match n with O => [] | S m => upto m ++ [Z.of_nat m] end.
+Lemma upto_in n x : 0 <= x < Z.of_nat n -> In x (upto n).
+Proof.
+  induction n as [|m IH]; intros H; [lia|].
+  cbn [upto]. apply in_or_app.
+  destruct (Z.eq_dec x (Z.of_nat m)) as [->|Hne]; [right; left; reflexivity | left; apply IH; lia].
+Qed.
+
+(* the translated function, as a function of the low seven bits when the status is not 0xffff *)
+Definition dead_low (m : Z) : Z :=
+  if (((Z.shiftr (Leaf.wrap_s8 (m + 1)) 1) >? 0) && true) then 1 else if (m =? 0) then 1 else 0.
+
+Definition dead_low_ok (m : Z) : bool := dead_low m =? (if m =? 127 then 0 else 1).
+
+Lemma dead_low_spec : forall m, 0 <= m < 128 -> dead_low m = (if m =? 127 then 0 else 1).
+Proof.
+  intros m H. assert (E : forallb dead_low_ok (upto 128) = true) by (vm_compute; reflexivity).
+  rewrite forallb_forall in E. specialize (E m (upto_in 128 m H)). unfold dead_low_ok in E.
+  apply Z.eqb_eq in E. exact E.
+Qed.
+
+Theorem status_dead_is_the_code : forall st, 0 <= st ->
+  Leaf.iv_wait_status_dead st = (if is_dead st then 1 else 0).
+Proof.
+  intros st H. unfold Leaf.iv_wait_status_dead, is_dead.
+  assert (L : Z.land st 127 = st mod 128) by (change 127 with (Z.ones 7); rewrite Z.land_ones by lia; reflexivity).
+  rewrite L. pose proof (Z.mod_pos_bound st 128 ltac:(lia)) as B.
+  destruct (Z.eqb_spec st 65535) as [->|Hne].
+  - vm_compute. reflexivity.
+  - cbn [negb]. pose proof (dead_low_spec (st mod 128) B) as D. unfold dead_low in D. rewrite D.
+    destruct (st mod 128 =? 127); reflexivity.
+Qed.
+
+Lemma leaf_reap_call : wait_reap_which tt = Some (-1) /\ wait_reap_opts tt = Some 11.
+Proof. split; reflexivity. Qed.
+
+Lemma leaf_reap_tests : forall pid (p : option wrec),
+  wait_reap_none pid = Some (pid <=? 0) /\
+  wait_reap_known (match p with Some _ => 1 | None => 0 end) = Some (match p with Some _ => true | None => false end).
+Proof. intros pid [w|]; split; reflexivity. Qed.
+
+(* reap_one of the model routes the status iff the translated `p != NULL` test holds for the interest found by pid *)
+Theorem reap_routes_is_the_code : forall s pid st,
+  match wait_reap_known (match find_pid pid (ints s) with Some _ => 1 | None => 0 end) with
+  | Some true => exists p, find_pid pid (ints s) = Some p /\
+                           reap_one true s pid st =
+                           Ok {| ints := upd_rec (w_id p) (set_reap st) (ints s); wlock := wlock s;
+                                 reaped := (if is_dead st then pid :: reaped s else reaped s);
+                                 spawning := spawning s; kpend := kpend s; draining := draining s |}
+  | Some false => ints (match reap_one true s pid st with Ok s' => s' | Crash => s end) = ints s
+  | None => False
+  end.
+Proof.
+  intros s pid st. unfold reap_one. destruct (find_pid pid (ints s)) as [p|]; cbn.
+  - exists p. split; reflexivity.
+  - destruct (is_dead st); reflexivity.
+Qed.
+
+(* the DEAD flag (bit 0 of ->flags) guards the kill helper and the tree removal *)
+Lemma leaf_dead_guards : forall dead : bool,
+  wait_kill_alive (if dead then 1 else 0) = Some (negb dead) /\
+  wait_unreg_in_tree (if dead then 1 else 0) = Some (negb dead).
+Proof. intros []; split; reflexivity. Qed.
+
+(* the model accepts a WKill label exactly when `performed` is what the translated guard computes *)
+Theorem kill_guard_is_the_code : forall s t id sig performed w,
+  find id (ints s) = Some w ->
+  (step s (WKill t id sig performed) <> None ->
+   wait_kill_alive (if w_dead w then 1 else 0) = Some performed).
+Proof.
+  intros s t id sig performed w F H. destruct (leaf_dead_guards (w_dead w)) as [-> _].
+  cbn [step step_gen] in H. unfold step, step_gen in H. rewrite F in H.
+  destruct (Bool.eqb performed (negb (w_dead w))) eqn:E.
+  - apply Bool.eqb_prop in E. rewrite E. reflexivity.
+  - repeat match type of H with context [if ?c then _ else _] => destruct c end; try congruence; contradiction H; reflexivity.
+Qed.
